@@ -292,7 +292,13 @@ func (r *muxRig) runCase(stream []byte, evs []ev, sizes []int, drain bool) (o mu
 		}
 	}()
 	fc := newFake(stream, evs)
-	r.root.ch <- fc
+	select {
+	case r.root.ch <- fc:
+	case <-time.After(30 * time.Second):
+		// Serve no longer accepts (it stopped after an unmatched connection?)
+		o.route = "stuck"
+		return
+	}
 	var got acc
 	select {
 	case got = <-r.accepted:
